@@ -142,7 +142,7 @@ def run_harness(lines, timeout=900):
 def run_harness_parallel(lines, workers=None):
     if not lines:
         return []
-    workers = workers or min(lib.NCPU, 12)
+    workers = workers or min(lib.NCPU, 8)
     parts = lib.chunked(lines, workers)
     res = lib.pmap(run_harness, parts, workers=workers)
     return [x for r in res for x in r]
@@ -945,7 +945,7 @@ def explore_binary(ctx):
             return run_script(None, stdin=s, interactive=True, timeout=10, mem_gb=mem)
         return run_script(s, timeout=10, mem_gb=mem)
 
-    res = lib.pmap(one, scripts, workers=min(lib.NCPU, 10))
+    res = lib.pmap(one, scripts, workers=min(lib.NCPU, 8))
     nviol = 0
     for (kind, s, inter, mem), r in zip(scripts, res):
         ctx.count(("bin", s), bucket="binary_" + kind)
